@@ -157,6 +157,32 @@ def stage_assumptions(prop_id, extra_modules=()):
     return ok, res, out
 
 
+def stage_coqchk(prop_id):
+    """coqchk -o on Properties/<id>.vo and everything it depends on (thorough tier): the independent checker
+    re-checks the compiled files and lists the axioms they rely on; cached on the hash of the .vo files."""
+    vo = os.path.join(COQ, "theories", "Properties", prop_id + ".vo")
+    if not os.path.exists(vo):
+        return False, "no " + vo, 0.0
+    h = file_hash(glob_files(os.path.join(COQ, "theories"), ".vo"))
+    stamp = os.path.join(BUILD, "coqchk-%s.stamp" % prop_id)
+    if os.path.exists(stamp):
+        try:
+            old = json.load(open(stamp))
+            if old.get("hash") == h:
+                return old["ok"], old["summary"], 0.0
+        except (ValueError, KeyError):
+            pass
+    rc, out, dt = sh(["coqchk", "-silent", "-o", "-Q", os.path.join(COQ, "theories"), "LC", "LC.Properties." + prop_id],
+                     cwd=COQ, timeout=3000)
+    summary = out[out.find("CONTEXT SUMMARY"):] if "CONTEXT SUMMARY" in out else out[-2000:]
+    summary = " ".join(summary.split())
+    clean = (rc == 0 and "* Axioms: <none>" in summary and "type-in-type: <none>" in summary and
+             "unsafe (co)fixpoints: <none>" in summary and "positivity is assumed: <none>" in summary)
+    with open(stamp, "w") as f:
+        json.dump({"hash": h, "ok": clean, "summary": summary}, f)
+    return clean, summary, dt
+
+
 def stage_hygiene():
     bad = []
     for f in glob_files(os.path.join(COQ, "theories"), ".v"):
@@ -412,6 +438,12 @@ def standard_build(res, prop, group=None, harness_bin=None, coq_targets=None, de
                                          thms[n]["assumptions"] == "Closed under the global context")
         res.coverage["theorems"] = {n: thms.get(n, {}).get("assumptions", "NOT CHECKED") for n in names}
         res.notes["statements"] = {n: thms.get(n, {}).get("statement", "") for n in names}
+        if ok and res.tier == "thorough":
+            okc, summary, dtc = stage_coqchk(prop)
+            res.notes["coqchk"] = summary
+            res.notes["coqchk_s"] = round(dtc, 1)
+            if not okc:
+                st["broken"].append({"obligation": "coqchk", "detail": summary[-3000:]})
         bad = stage_hygiene()
         st["hygiene"] = not bad
         if bad:
